@@ -75,3 +75,233 @@ def present(rng, a, allow_dtype=True):
     if k == 3:
         return np.ascontiguousarray(a.T).T   # F-contiguous via transpose of a C array
     return a
+
+
+# ------------------------------------------------------------------------------------------------
+# presentation variation for arrays of any rank / lists of arrays, and purity (caller's arguments untouched) snapshots.
+# Used by the SDP harnesses (c08..c13, c15, c20): the VALUES never change, so oracles / certified intervals stay valid.
+
+
+def present_nd(rng, a, allow_dtype=True, int_ok=True, bool_ok=False):
+    """The same values in another presentation, for arrays of any rank >= 1 (rank 0 / object arrays are returned as they are):
+    dtype: complex128 with zero imaginary part -> float64 or (integer values, int_ok) int64; float64 with integer values -> int64
+           (int_ok); values in {0, 1} -> bool (bool_ok); only when allow_dtype;
+    layout: C-contiguous, Fortran-contiguous, strided (every second element of a larger buffer along every axis), or a
+            permuted-axes copy viewed back (arbitrary stride order).
+    rng None -> the array itself."""
+    a = np.asarray(a)
+    if rng is None or a.dtype == object or a.ndim == 0 or a.size == 0:
+        return a
+    # every draw is unconditional: the decisions are a function of the generator state and the VALUES only
+    k, kb, kl = int(rng.integers(3)), int(rng.integers(3)), int(rng.integers(4))
+    perm = [int(x) for x in rng.permutation(a.ndim)]
+    if allow_dtype:
+        if np.iscomplexobj(a) and not np.any(a.imag) and k >= 1:
+            a = a.real.copy()
+        if k == 2 and a.dtype.kind == "f" and int_ok and np.all(np.isfinite(a)) and np.all(a == np.round(a)) and np.max(np.abs(a), initial=0) < 2 ** 52:
+            a = a.astype(np.int64)
+        if bool_ok and kb == 0 and not np.iscomplexobj(a) and a.dtype.kind in "fi" and np.all((a == 0) | (a == 1)):
+            a = a.astype(bool)
+    if kl == 1:
+        return np.asfortranarray(a)
+    if kl == 2:
+        big = np.zeros(tuple(2 * s for s in a.shape), dtype=a.dtype)
+        sl = tuple(slice(None, None, 2) for _ in a.shape)
+        big[tuple(slice(1, None, 2) for _ in a.shape)] = 1   # the gaps are not zero: reading through the strides matters
+        big[sl] = a
+        return big[sl]
+    if kl == 3 and a.ndim >= 2:
+        inv = [perm.index(i) for i in range(a.ndim)]
+        return np.ascontiguousarray(a.transpose(perm)).transpose(inv)
+    return np.ascontiguousarray(a)
+
+
+def present_list(rng, arrs, force_real=(), **kw):
+    """every element presented independently: mixed dtypes and layouts occur within one list (a new list object).
+    Elements whose index is in force_real and whose imaginary part vanishes are handed over with a real dtype for certain
+    (the generator made them real-valued on purpose: real first element followed by complex ones, and the reverse)."""
+    out = []
+    for i, a in enumerate(arrs):
+        a = np.asarray(a)
+        if rng is not None and i in force_real and np.iscomplexobj(a) and not np.any(a.imag):
+            a = a.real.copy()
+        out.append(present_nd(rng, a, **kw))
+    return out
+
+
+def call_rng(pres, *key):
+    """generator for the presentation of one call: a function of the task's presentation seed and the call's identity only, so a
+    replay of that single call reproduces the presentation; None (no variation) when the task carries no seed"""
+    import zlib
+    if not pres:
+        return None
+    return np.random.default_rng([int(pres), zlib.crc32(repr(key).encode())])
+
+
+def describe(x):
+    """short text for evidence / violation records: dtype and layout of an array (or of every element of a list)"""
+    if isinstance(x, (list, tuple)):
+        return [describe(e) for e in x]
+    if not isinstance(x, np.ndarray):
+        return type(x).__name__
+    lay = "C" if x.flags["C_CONTIGUOUS"] else ("F" if x.flags["F_CONTIGUOUS"] else "strided")
+    if x.ndim >= 2 and x.flags["C_CONTIGUOUS"] and x.flags["F_CONTIGUOUS"]:
+        lay = "CF"
+    return f"{x.dtype}/{lay}"
+
+
+def snapshot(obj):
+    """deep record of caller-visible state of an argument: arrays (identity, dtype, shape, values), lists / tuples / dicts
+    (identity, length, element identities, recursively), plain scalars / strings / None by value; other objects by identity only"""
+    if isinstance(obj, np.ndarray):
+        return ("nd", id(obj), obj.dtype, obj.shape, obj.strides, np.array(obj, copy=True, order="K"))
+    if isinstance(obj, (list, tuple)):
+        return ("seq", id(obj), type(obj), len(obj), [id(e) for e in obj], [snapshot(e) for e in obj])
+    if isinstance(obj, dict):
+        return ("map", id(obj), sorted(map(repr, obj.keys())), {k: snapshot(v) for k, v in obj.items()})
+    if obj is None or isinstance(obj, (bool, int, float, complex, str, np.generic)):
+        return ("val", obj)
+    return ("obj", id(obj))
+
+
+def snapshot_diff(snap, obj, path="arg"):
+    """None when obj still is what `snapshot` recorded, else a short description of the first difference"""
+    kind = snap[0]
+    if kind == "nd":
+        _, i, dt, sh, st, val = snap
+        if not isinstance(obj, np.ndarray) or id(obj) != i:
+            return f"{path}: replaced by another object"
+        if obj.dtype != dt:
+            return f"{path}: dtype {dt} -> {obj.dtype}"
+        if obj.shape != sh:
+            return f"{path}: shape {sh} -> {obj.shape}"
+        if obj.strides != st:
+            return f"{path}: strides {st} -> {obj.strides}"
+        if not np.array_equal(obj, val, equal_nan=(obj.dtype.kind in "fc")):
+            w = np.argwhere(np.asarray(obj != val))
+            j = tuple(int(t) for t in w[0]) if len(w) else ()
+            return f"{path}: values changed (first at index {j}: {val[j]!r} -> {obj[j]!r})" if len(w) else f"{path}: values changed"
+        return None
+    if kind == "seq":
+        _, i, ty, n, ids, subs = snap
+        if id(obj) != i or type(obj) is not ty:
+            return f"{path}: replaced by another object"
+        if len(obj) != n:
+            return f"{path}: length {n} -> {len(obj)}"
+        for j, (e, ei, es) in enumerate(zip(obj, ids, subs)):
+            if id(e) != ei and es[0] not in ("val",):
+                return f"{path}[{j}]: element replaced by another object ({describe(e)})"
+            d = snapshot_diff(es, e, f"{path}[{j}]")
+            if d:
+                return d
+        return None
+    if kind == "map":
+        _, i, keys, subs = snap
+        if id(obj) != i or sorted(map(repr, obj.keys())) != keys:
+            return f"{path}: keys changed"
+        for k, es in subs.items():
+            d = snapshot_diff(es, obj[k], f"{path}[{k!r}]")
+            if d:
+                return d
+        return None
+    if kind == "val":
+        v = snap[1]
+        same = (type(obj) is type(v)) and (obj == v or (isinstance(v, float) and v != v and obj != obj))
+        return None if same else f"{path}: {v!r} -> {obj!r}"
+    return None if id(obj) == snap[1] else f"{path}: replaced by another object"
+
+
+class Pure:
+    """purity guard around one call:  g = Pure(args...);  out = f(args...);  why = g.modified()  (None = untouched)"""
+
+    def __init__(self, *args, **kwargs):
+        self.args, self.kwargs = args, kwargs
+        self.snap = snapshot(list(args)), snapshot(dict(kwargs))
+
+    def modified(self):
+        d = None
+        for j, (a, s) in enumerate(zip(self.args, self.snap[0][5])):
+            d = d or snapshot_diff(s, a, f"arg{j}")
+        for k, s in self.snap[1][3].items():
+            d = d or snapshot_diff(s, self.kwargs[k], k)
+        return d
+
+
+# ------------------------------------------------------------------------------------------------
+# group-A hardening (c04, c06, c07, c14, c16..c19): a presentation generator that depends on the CASE only (so a replay of the
+# case sees the same presentation and the harness's data stream ctx.rng is not disturbed), and presentation of nested containers.
+
+
+def case_rng(*parts):
+    """numpy Generator determined by the given JSON-able parts (case seed / case description / call-site tag) alone"""
+    import hashlib
+    import json
+
+    h = hashlib.sha256(json.dumps(parts, sort_keys=True, default=str).encode()).digest()
+    return np.random.default_rng(int.from_bytes(h[:8], "little"))
+
+
+def present_obj(rng, obj, **kw):
+    """present_nd on every ndarray inside nested lists / tuples (new containers of the same types, each leaf presented
+    independently, so mixed dtypes / layouts occur inside one list); everything else is returned as it is"""
+    if isinstance(obj, np.ndarray):
+        return present_nd(rng, obj, **kw)
+    if isinstance(obj, list):
+        return [present_obj(rng, e, **kw) for e in obj]
+    if isinstance(obj, tuple):
+        return tuple(present_obj(rng, e, **kw) for e in obj)
+    return obj
+
+
+def vary_ensemble(prs, inst, kinds=("random", "near", "mixed", "prod_ent"), zero_prior_one_in=0):
+    """In place, for the ensemble dictionaries of c10 / c11 / c12 (keys states, cplx, kind, probs, optionally vecs):
+    * inst["pres"]: seed of the presentation of every call on this instance (see call_rng);
+    * complex ensembles of the listed kinds, one in three: some states are replaced by REAL-valued ones (real part of the state vector,
+      renormalised; (rho + conj rho)/2 for mixed density operators; one in three a computational basis vector, integer-valued) so that a
+      real-dtype first element is followed by genuinely complex ones, or a complex first element by real ones: inst["real_idx"];
+    * zero_prior_one_in = n > 0: one in n instances with k >= 3 gets a prior with an exact zero entry.
+    Values change here (before anything is certified), never afterwards."""
+    inst["pres"] = int(prs.integers(1, 2 ** 31))
+    inst["real_idx"] = []
+    states = inst["states"]
+    k = len(states)
+    if inst.get("cplx") and inst.get("kind") in kinds and k >= 2 and int(prs.integers(3)) == 0:
+        if int(prs.integers(2)):
+            idx = [0] + [i for i in range(1, k - 1) if int(prs.integers(4)) == 0]
+        else:
+            idx = [i for i in range(1, k) if int(prs.integers(2))] or [k - 1]
+        for i in idx:
+            a = np.asarray(states[i])
+            basis = int(prs.integers(3)) == 0 and inst.get("kind") != "near"
+            j = int(prs.integers(a.shape[0]))
+            vec_form = a.ndim == 1 or 1 in a.shape
+            vecs = inst.get("vecs")
+            if vec_form or vecs is not None or np.linalg.matrix_rank(a, tol=1e-9) == 1:
+                if vec_form:
+                    v = a.reshape(-1)
+                elif vecs is not None:
+                    v = np.asarray(vecs[i]).reshape(-1)
+                else:
+                    v = np.linalg.eigh((a + a.conj().T) / 2)[1][:, -1]
+                    m = int(np.argmax(np.abs(v)))
+                    v = v * np.exp(-1j * np.angle(v[m]))
+                r = np.real(v).astype(float)
+                if basis:
+                    r = np.zeros(v.shape[0])
+                    r[j] = 1.0
+                if np.linalg.norm(r) < 1e-3:
+                    continue
+                r = (r / np.linalg.norm(r)).astype(complex)
+                if vecs is not None:
+                    vecs[i] = r.copy()
+                states[i] = r.reshape(a.shape) if vec_form else np.outer(r, r.conj())
+            else:
+                states[i] = np.real(a).astype(complex)
+            inst["real_idx"].append(i)
+    if zero_prior_one_in and k >= 3 and int(prs.integers(zero_prior_one_in)) == 0:
+        from . import qgen
+        z = int(prs.integers(k))
+        rest = qgen.dyadic_probs(prs, k - 1)
+        inst["probs"] = rest[:z] + [0.0] + rest[z:]
+        inst["probs_given"] = True
+    return inst
